@@ -7,32 +7,36 @@ type Spec struct {
 	Lean string // name of the Lean definition in namespace Elys.Gen.Arith
 	// Effects: the function makes bank transfers; its Lean definition also returns their trace [(from, to, amount)], oldest first
 	Effects bool
+	// Prefix: translate only the longest prefix of the function's statements the translator understands (the guards in front of its
+	// effects); the Lean definition returns Unit: an error is a refusal, `pure ()` is "not refused by these guards"
+	Prefix bool
 }
 
 // order matters: a function is listed after the listed functions it calls
 var specs = []Spec{
-	{"x/amm/types", "solveConstantFunctionInvariant", "solveConstantFunctionInvariant", false},
-	{"x/amm/types", "CalculateTokenARate", "calculateTokenARate", false},
-	{"x/amm/types", "feeRatio", "feeRatio", false},
-	{"x/amm/types", "calcPoolSharesOutGivenSingleAssetIn", "calcPoolSharesOutGivenSingleAssetIn", false},
-	{"x/amm/types", "AbsDifferenceWithSign", "absDifferenceWithSign", false},
-	{"x/amm/types", "ApplyDiscount", "applyDiscount", false},
-	{"x/amm/types", "GetWeightBreakingFee", "getWeightBreakingFee", false},
-	{"x/commitment/types", "VestingTokens.VestedSoFar", "vestedSoFar", false},
-	{"x/perpetual/types", "CalcTakeAmount", "calcTakeAmount", false},
-	{"x/perpetual/types", "MTP.CalcMTPTakeProfitBorrowFactor", "calcMTPTakeProfitBorrowFactor", false},
-	{"x/perpetual/types", "MTP.GetBorrowInterestAmountAsCustodyAsset", "getBorrowInterestAmountAsCustodyAsset", false},
-	{"x/perpetual/types", "CalcMTPTakeProfitCustody", "calcMTPTakeProfitCustody", false},
-	{"x/perpetual/keeper", "Keeper.CalcReturnAmount", "calcReturnAmount", false},
-	{"x/perpetual/keeper", "Keeper.GetLiquidationPrice", "getLiquidationPrice", false},
-	{"x/perpetual/keeper", "Keeper.CalcMTPTakeProfitLiability", "calcMTPTakeProfitLiability", false},
-	{"x/perpetual/keeper", "Keeper.GetFundingPaymentRates", "getFundingPaymentRates", false},
-	{"x/perpetual/keeper", "Keeper.BorrowInterestRateComputation", "borrowInterestRateComputation", false},
-	{"x/perpetual/keeper", "Keeper.CalcMinCollateral", "calcMinCollateral", false},
-	{"x/stablestake/keeper", "Keeper.GetRedemptionRate", "getRedemptionRate", false},
-	{"x/masterchef/keeper", "Keeper.CollectGasFees", "collectGasFees", true},
-	{"x/masterchef/keeper", "Keeper.CollectPerpRevenue", "collectPerpRevenue", true},
-	{"x/stablestake/keeper", "Keeper.InterestRateComputation", "interestRateComputation", false},
+	{"x/amm/types", "solveConstantFunctionInvariant", "solveConstantFunctionInvariant", false, false},
+	{"x/amm/types", "CalculateTokenARate", "calculateTokenARate", false, false},
+	{"x/amm/types", "feeRatio", "feeRatio", false, false},
+	{"x/amm/types", "calcPoolSharesOutGivenSingleAssetIn", "calcPoolSharesOutGivenSingleAssetIn", false, false},
+	{"x/amm/types", "AbsDifferenceWithSign", "absDifferenceWithSign", false, false},
+	{"x/amm/types", "ApplyDiscount", "applyDiscount", false, false},
+	{"x/amm/types", "GetWeightBreakingFee", "getWeightBreakingFee", false, false},
+	{"x/commitment/types", "VestingTokens.VestedSoFar", "vestedSoFar", false, false},
+	{"x/perpetual/types", "CalcTakeAmount", "calcTakeAmount", false, false},
+	{"x/perpetual/types", "MTP.CalcMTPTakeProfitBorrowFactor", "calcMTPTakeProfitBorrowFactor", false, false},
+	{"x/perpetual/types", "MTP.GetBorrowInterestAmountAsCustodyAsset", "getBorrowInterestAmountAsCustodyAsset", false, false},
+	{"x/perpetual/types", "CalcMTPTakeProfitCustody", "calcMTPTakeProfitCustody", false, false},
+	{"x/perpetual/keeper", "Keeper.CalcReturnAmount", "calcReturnAmount", false, false},
+	{"x/perpetual/keeper", "Keeper.GetLiquidationPrice", "getLiquidationPrice", false, false},
+	{"x/perpetual/keeper", "Keeper.CalcMTPTakeProfitLiability", "calcMTPTakeProfitLiability", false, false},
+	{"x/perpetual/keeper", "Keeper.GetFundingPaymentRates", "getFundingPaymentRates", false, false},
+	{"x/perpetual/keeper", "Keeper.BorrowInterestRateComputation", "borrowInterestRateComputation", false, false},
+	{"x/perpetual/keeper", "Keeper.CalcMinCollateral", "calcMinCollateral", false, false},
+	{"x/stablestake/keeper", "Keeper.GetRedemptionRate", "getRedemptionRate", false, false},
+	{"x/stablestake/keeper", "Keeper.Borrow", "borrowGuards", false, true},
+	{"x/masterchef/keeper", "Keeper.CollectGasFees", "collectGasFees", true, false},
+	{"x/masterchef/keeper", "Keeper.CollectPerpRevenue", "collectPerpRevenue", true, false},
+	{"x/stablestake/keeper", "Keeper.InterestRateComputation", "interestRateComputation", false, false},
 }
 
 // externs: callees that are loops; their hand-written Lean definitions are tied to the code by the differential harness only
@@ -52,4 +56,6 @@ var errorsMap = map[string]string{
 	"ErrZeroCustodyAmount":   ".badArgs",
 	"ErrInvalidLeverage":     ".badArgs",
 	"ErrBalanceNotAvailable": ".badArgs",
+	"ErrInvalidBorrowDenom":  ".badArgs",
+	"ErrMaxBorrowAmount":     ".limitMax",
 }
